@@ -235,8 +235,8 @@ def shard_raster(spec, R):
 
 def plan(tier, seed):
     q = tier == "quick"
-    specs = [{"kind": "series", "sub": i, "cases": 700 if q else 12000, "exact_every": 10 if q else 5, "budget_s": 100 if q else 1500} for i in range(12 if q else 24)]
-    specs += [{"kind": "raster", "sub": i, "cases": 40 if q else 500, "budget_s": 100 if q else 1500} for i in range(4 if q else 8)]
+    specs = [{"kind": "series", "sub": i, "cases": 700 if q else 40000, "exact_every": 10 if q else 5, "budget_s": 100 if q else 600} for i in range(12 if q else 32)]
+    specs += [{"kind": "raster", "sub": i, "cases": 40 if q else 2000, "budget_s": 100 if q else 600} for i in range(4 if q else 8)]
     return specs
 
 
